@@ -2,6 +2,7 @@ package main
 
 import (
 	"context"
+	"errors"
 	"fmt"
 	"io"
 	"net/http"
@@ -10,6 +11,7 @@ import (
 	"strings"
 	"time"
 
+	"github.com/gobwas/ws"
 	"google.golang.org/grpc/status"
 	"larking.io/api/testpb"
 )
@@ -18,7 +20,7 @@ import (
 // h2c, driven by net/http's client (no redirect following) or by a grpc-go client whose method string carries the
 // mount prefix.
 //
-//   C20L <opts> <h1|grpc> <kind> <hexpath> ; srv <status> <class> <arg> <eq> <rec>
+//   C20L <opts> <h1|grpc|ws> <kind> <hexpath> ; srv <status> <class> <arg> <eq> <rec>
 //
 // opts, kind, eq, rec as in C20 (kind is ignored for grpc). eq is computed against a second listener serving the bare
 // mux (NewServer without options). For the gRPC client, status is the gRPC code, a net/http 404 / 301 is recognised
@@ -105,6 +107,37 @@ func c20GRPC(l *loopback, path string) (digest string, code int, msg string) {
 	return fmt.Sprintf("%d|%s|%s", st.Code(), st.Message(), msgText(out)), int(st.Code()), st.Message()
 }
 
+// c20WS upgrades to a WebSocket at path, sends one text frame and renders the handshake result and the reply frame.
+func c20WS(base, path string) (digest string, status int) {
+	ctx, cancel := context.WithTimeout(context.Background(), 10*time.Second)
+	defer cancel()
+	conn, br, _, err := ws.Dial(ctx, "ws"+strings.TrimPrefix(base, "http")+path)
+	if err != nil {
+		var se ws.StatusError
+		if errors.As(err, &se) {
+			return fmt.Sprintf("ws|handshake refused|%d", int(se)), int(se)
+		}
+		return "ws|handshake failed", 0
+	}
+	defer conn.Close()
+	conn.SetDeadline(time.Now().Add(10 * time.Second))
+	if err := ws.WriteFrame(conn, ws.MaskFrameInPlace(ws.NewTextFrame([]byte(`{"text":"hi"}`)))); err != nil {
+		return "ws|101|write error", 101
+	}
+	var rd io.Reader = conn
+	if br != nil {
+		rd = br
+	}
+	fr, err := ws.ReadFrame(rd)
+	reply := "read error"
+	if err == nil {
+		reply = fmt.Sprintf("%d:%s", fr.Header.OpCode, fr.Payload)
+	}
+	ws.WriteFrame(conn, ws.MaskFrameInPlace(ws.NewCloseFrame(ws.NewCloseFrameBody(ws.StatusNormalClosure, ""))))
+	io.Copy(io.Discard, rd)
+	return "ws|101|" + reply, 101
+}
+
 func c20lRun(o *out, input string) {
 	f := strings.Fields(input)
 	if len(f) != 5 {
@@ -125,6 +158,14 @@ func c20lRun(o *out, input string) {
 				class = "nf?" // net/http's 404 page or the mux's own text/plain 404 for an unknown method: grpc-go shows no body
 			case strings.Contains(msg, "unexpected HTTP status code received from server: 301"):
 				class = "redir"
+			}
+		} else if client == "ws" {
+			digest, status = c20WS(l.lb.url, p)
+			if status == 404 {
+				class = "nf?" // the handshake answer's body is not shown by the client
+			}
+			for i := 0; i < 200 && status == 101 && len(e.svc.rec) == 0; i++ {
+				time.Sleep(time.Millisecond) // the handler notes the message before it replies; belt and braces
 			}
 		} else {
 			var loc string
@@ -209,6 +250,8 @@ func c20lGen(o *out, r *rng, tier string) {
 			}
 			emit("h1", "get", pre+"/v1/messages/name/123")
 			emit("h1", "twirp", pre+"/larking.testpb.Messaging/GetMessageOne")
+			emit("ws", "ws", pre+"/v1/rooms/r1")
+			emit("ws", "ws", pre+"/v1/rooms")
 			if pre != "" {
 				emit("h1", "get", pre)
 				emit("grpc", "grpc", pre)
